@@ -10,7 +10,8 @@ ID=$1; SEED=${2:-0}; RUNS=${3:-${VERIF_FUZZ_RUNS:-}}
 V=/verif
 case $ID in
   C02) TARGETS="c02_engine";             DEF_RUNS=300000 ;;
-  C05) TARGETS="c05_inbound c05_core";   DEF_RUNS=200000 ;;
+  C04) TARGETS="c04_core";               DEF_RUNS=40000 ;;
+  C05) TARGETS="c05_inbound c05_core c05_reply";   DEF_RUNS=200000 ;;
   C06) TARGETS="c06_history";            DEF_RUNS=4000 ;;
   C07) TARGETS="c07_recover";            DEF_RUNS=60000 ;;
   C19) TARGETS="c19_parse";              DEF_RUNS=2000000 ;;
